@@ -6,7 +6,7 @@ PROPERTY = 'C11'
 ENGINE = 'E2 explicit-state search (BFS to fixpoint + all histories to depth k, no dedup) over the real client Service (fresh object per operation, CLI style) against a live server on the E3 virtual network'
 LEVEL = 'model_checking'
 ALPHABET = ['create', 'create-invalid', 'create-again', 'genkey', 'encrypt', 'upload-config', 'upload-index', 'search']
-DEPTH = {'quick': 4, 'thorough': 6}
+DEPTH = {'quick': 5, 'thorough': 6}
 B_CREATED, B_CFG_UP, B_KEY, B_ENC, B_IDX_UP = 1, 2, 4, 8, 16
 NO_SID = 'f' * 64
 
@@ -25,6 +25,7 @@ def describe(tier):
         'assumptions': ['the server cleanup delay elapses between two CLI commands (each command is a separate process run in reality)',
                         'scheme = CJJ14.PiBas (thorough: also CT14.Pi); the guards under test are scheme-independent'],
         'must_be_nonzero': ['bfs-fixpoint', 'dfs-histories', 'refused', 'accepted', 'searches-after-upload', 'key-checked'],
+        'cli_level': 'the same BFS + DFS (depth one less) is repeated through frontend/client/commands.py with 10 commands incl. create from a missing / truncated-JSON file',
     }
 
 
@@ -36,6 +37,10 @@ def units(tier, seed):
         for a, b in itertools.product(ALPHABET, repeat=2):
             us.append(('dfs/%s/%s/%s' % (name, a, b), {'kind': 'dfs', 'scheme': name, 'prefix': [a, b]}))
         us.append(('dfs-short/' + name, {'kind': 'dfs-short', 'scheme': name}))
+    # the same model through frontend/client/commands.py, all commands of a history in one process
+    us.append(('cli-bfs', {'kind': 'bfs', 'scheme': 'CJJ14.PiBas', 'cli': True}))
+    for a, b in itertools.product(CLI_ALPHABET, repeat=2):
+        us.append(('cli-dfs/%s/%s' % (a, b), {'kind': 'dfs', 'scheme': 'CJJ14.PiBas', 'prefix': [a, b], 'cli': True}))
     return us
 
 
@@ -227,12 +232,160 @@ class ClientSystem:
         return (s.flags, self.persisted_flags(s), cf, sf, sstate, bool(s.cl.sid), ndirs)
 
 
+CLI_ALPHABET = ['create', 'create-invalid', 'create-missing-file', 'create-bad-json', 'create-again', 'genkey', 'encrypt', 'upload-config',
+                'upload-index', 'search']
+
+
+class CliSystem(ClientSystem):
+    """the same reference model, driven through frontend/client/commands.py - the module behind run_client.py - with every
+    command of a history issued in ONE process (as an interactive session or a script would): the module keeps the last
+    Service object in a global, prints instead of raising, and maps service names to ids"""
+    counter = [0]
+
+    def __init__(self, seed, name):
+        super().__init__(seed, name)
+        import frontend.client.commands as commands
+        self.commands = commands
+
+    def fresh(self):
+        import json as _json
+        s = super().fresh()
+        setattr(self.commands, '__client_service', None)
+        s.files = det.workdir('c11cli')
+        s.cfg_path = os.path.join(s.files, 'cfg.json')
+        s.bad_path = os.path.join(s.files, 'bad.json')
+        s.junk_path = os.path.join(s.files, 'junk.json')
+        s.again_path = os.path.join(s.files, 'again.json')
+        s.db_path = os.path.join(s.files, 'db.json')
+        _json.dump(self.cfg, open(s.cfg_path, 'w'))
+        _json.dump(self.bad_cfg, open(s.bad_path, 'w'))
+        open(s.junk_path, 'w').write('{"scheme": "CJJ14.PiBas", "param_lambda": ')
+        _json.dump({w.decode(): [x.hex() for x in ids] for w, ids in self.db.items()}, open(s.db_path, 'w'))
+        s.sid = ''
+        return s
+
+    def dispose(self, s):
+        import shutil
+        shutil.rmtree(s.files, ignore_errors=True)
+        super().dispose(s)
+
+    def events(self, s):
+        # through the CLI a plain `create` always makes a NEW, independent service (fresh salt, fresh sid), which is legitimate;
+        # the history follows one service, so `create` is offered only while there is none; the refused variants always are
+        if s.flags & B_CREATED:
+            return [e for e in CLI_ALPHABET if e != 'create']
+        return [e for e in CLI_ALPHABET if e != 'create-again']
+
+    def model_accepts(self, s, ev):
+        if ev in ('create-missing-file', 'create-bad-json'):
+            return False
+        return super().model_accepts(s, ev)
+
+    def persisted_flags(self, s):
+        s.cl.sid = s.sid
+        return super().persisted_flags(s)
+
+    def step(self, s, ev):
+        import io, contextlib, ast, re
+        probs = []
+        cmd = self.commands
+        before = self.client_snapshot(s)
+        accept = self.model_accepts(s, ev)
+        sid = s.sid or NO_SID
+        self.counter[0] += 1
+        out = io.StringIO()
+
+        def run(f, *a, **k):
+            async def wrapper():
+                res = f(*a, **k)
+                if hasattr(res, '__await__'):
+                    res = await res
+                return res
+            t = s.w.loop.spawn(wrapper(), 'client#1')
+            s.w.loop.run_until(t.done)
+            return t.result()
+        exc = None
+        try:
+            with contextlib.redirect_stdout(out):
+                if ev.startswith('create'):
+                    path = {'create': s.cfg_path, 'create-invalid': s.bad_path, 'create-missing-file': os.path.join(s.files, 'nope.json'),
+                            'create-bad-json': s.junk_path, 'create-again': s.again_path}[ev]
+                    if ev == 'create-again':
+                        open(s.again_path, 'wb').write(s.w.client_files(s.sid)['config.json'])
+                    known = set(os.listdir(str(self.m['cfm']._PROGRAM_PATH)))
+                    try:
+                        run(cmd.create_service, path, 'svc%d-%d' % (os.getpid(), self.counter[0]))
+                    finally:
+                        for d in set(os.listdir(str(self.m['cfm']._PROGRAM_PATH))) - known:
+                            if os.path.isdir(os.path.join(str(self.m['cfm']._PROGRAM_PATH), d)):
+                                s.extra_dirs.append(os.path.join(str(self.m['cfm']._PROGRAM_PATH), d))
+                                s.w.sids.append(d)
+                elif ev == 'genkey':
+                    run(cmd.generate_key, sid=sid)
+                elif ev == 'encrypt':
+                    run(cmd.encrypt_database, s.db_path, sid=sid)
+                elif ev == 'upload-config':
+                    run(cmd.upload_config, sid=sid)
+                elif ev == 'upload-index':
+                    run(cmd.upload_encrypted_database, sid=sid)
+                elif ev == 'search':
+                    for w in self.db:
+                        run(cmd.search, w.decode(), 'raw', sid=sid)
+        except Exception as e:
+            exc = e
+        text = out.getvalue()
+        fe.settle(s.w.loop, timers=True)
+        refused = exc is not None or bool(re.search(r'error', text, re.I)) or 'Unsupported' in text
+        if ev == 'create' and not refused:
+            m_ = re.search(r'>>> sid: (\w+)', text)
+            if m_:
+                s.sid = m_.group(1)
+                s.cl.sid = s.sid
+        after = self.client_snapshot(s)
+        if accept:
+            if refused:
+                probs.append(('valid-operation-refused', 'cli/%s' % ev, 'accepted', (core.exc_text(exc) if exc else text.strip()[-200:])))
+            else:
+                s.flags |= {'create': B_CREATED, 'genkey': B_KEY, 'encrypt': B_ENC, 'upload-config': B_CFG_UP, 'upload-index': B_IDX_UP}.get(ev, 0)
+                if ev == 'search':
+                    got = re.findall(r'>>> The result is (\[.*?\])\.\n', text)
+                    want = [list(ids) for ids in self.db.values()]
+                    try:
+                        got = [ast.literal_eval(g) for g in got]
+                    except Exception:
+                        pass
+                    if got != want:
+                        probs.append(('search-wrong-after-upload', 'cli/search', want, got))
+        else:
+            if not refused:
+                probs.append(('invalid-operation-accepted', 'cli/%s/flags=%s' % (ev, format(s.flags, '05b')), 'refused with an error', text.strip()[-200:]))
+            if after != before:
+                changed = sorted(k for k in set(after) | set(before) if after.get(k) != before.get(k))
+                probs.append(('refused-operation-changed-files', 'cli/%s/flags=%s' % (ev, format(s.flags, '05b')), 'client files byte-identical', changed))
+        pf = self.persisted_flags(s)
+        if s.flags and pf != s.flags:
+            probs.append(('persisted-flags-differ', 'cli/' + ev, format(s.flags, '05b'), pf if not isinstance(pf, int) else format(pf, '05b')))
+        if s.sid:
+            kb = s.w.client_files(s.sid).get('key')
+            if s.flags & B_KEY:
+                if s.key_bytes is None:
+                    s.key_bytes = kb
+                elif kb != s.key_bytes:
+                    probs.append(('key-changed', 'cli/' + ev, 'key bytes unchanged since creation', 'missing' if kb is None else 'different bytes'))
+        return probs
+
+    def canon(self, s):
+        s.cl.sid = s.sid
+        return super().canon(s)
+
+
 def run_unit(p, tier, seed):
     r = core.Result()
-    system = ClientSystem(seed, p['scheme'])
+    system = (CliSystem if p.get('cli') else ClientSystem)(seed, p['scheme'])
+    ALPHABET_ = CLI_ALPHABET if p.get('cli') else ALPHABET
 
     def on_problem(hist, ev, prob):
-        r.v(PROPERTY, 'client', prob[0], prob[1], {'scheme': p['scheme'], 'history': list(hist), 'event': ev, 'engine': p['kind']}, prob[2], prob[3])
+        r.v(PROPERTY, 'client', prob[0], prob[1], {'scheme': p['scheme'], 'history': list(hist), 'event': ev, 'engine': p['kind'], 'cli': bool(p.get('cli'))}, prob[2], prob[3])
         r.outcome(prob[0])
 
     if p['kind'] == 'bfs':
@@ -261,6 +414,8 @@ def run_unit(p, tier, seed):
             s = system.fresh()
             try:
                 for i, ev in enumerate(hist):
+                    if p.get('cli') and ev not in system.events(s):
+                        return
                     for prob in system.step(s, ev):
                         on_problem(hist[:i], ev, prob)
                     r['transitions'] += 1
@@ -281,13 +436,13 @@ def run_unit(p, tier, seed):
             r['traces'] += 1
             r.count('dfs-histories')
             r.count('refused')
-            if len(hist) < depth:
-                for ev in ALPHABET:
+            if len(hist) < depth - (1 if p.get('cli') else 0):
+                for ev in ALPHABET_:
                     rec(hist + [ev])
         if p['kind'] == 'dfs':
             rec(list(p['prefix']))
         else:
-            for ev in ALPHABET:
+            for ev in ALPHABET_:
                 run_hist([ev])
                 r['evaluations'] += 1
                 r.count('dfs-histories')
@@ -299,7 +454,7 @@ def run_unit(p, tier, seed):
 
 def replay(case, seed):
     r = core.Result()
-    system = ClientSystem(seed, case['scheme'])
+    system = (CliSystem if case.get('cli') else ClientSystem)(seed, case['scheme'])
     s = system.fresh()
     try:
         for ev in case['history']:
